@@ -208,7 +208,17 @@ def run_engine(pid, engname, tier, seed, work, pool, log, stats):
     results = pool.map(_impl_worker, [(engname, c) for c in cases], chunksize=1)
     t1 = time.time()
     raw = getattr(mod, "RAW_COMPARE", False)
-    mres = C.model_run_parallel(mod.ENGINE_ID, [mod.to_model(c) for c in cases], raw=raw)
+    if hasattr(mod, "model_cases"):
+        # a case with mid-run resets is several model runs (each from the reset state) joined by the engine
+        groups = [mod.model_cases(c) for c in cases]
+        flat = C.model_run_parallel(mod.ENGINE_ID, [x for g in groups for x in g], raw=False)
+        mres, k = [], 0
+        for c, g in zip(cases, groups):
+            j = mod.model_join(c, flat[k:k + len(g)])
+            k += len(g)
+            mres.append(C.sx_dump(j) if raw else j)
+    else:
+        mres = C.model_run_parallel(mod.ENGINE_ID, [mod.to_model(c) for c in cases], raw=raw)
     t2 = time.time()
     mismatches, breaches = [], []
     seen = set()
@@ -254,7 +264,8 @@ def run_engine(pid, engname, tier, seed, work, pool, log, stats):
 
 def coq_replay(mod, cases, mres, work, log, engname, limit=3, maxlen=6000):
     picks = []
-    cand = [i for i in range(len(cases)) if mres[i] is not None][:200]
+    multi = (lambda c: len(mod.model_cases(c)) > 1) if hasattr(mod, "model_cases") else (lambda c: False)
+    cand = [i for i in range(len(cases)) if mres[i] is not None and not multi(cases[i])][:200]
     order = sorted(cand, key=lambda i: len(C.sx_dump(mod.to_model(cases[i]))))
     for i in order:
         s = C.sx_dump(mod.to_model(cases[i]))
@@ -494,7 +505,10 @@ def replay(pid, path):
     mod = importlib.import_module("harness.engines." + r["engine"])
     case = r["case"]
     o = mod.run_impl(case)
-    m = mod.from_model(C.model_run(mod.ENGINE_ID, [mod.to_model(case)])[0])
+    if hasattr(mod, "model_cases"):
+        m = mod.from_model(mod.model_join(case, C.model_run(mod.ENGINE_ID, mod.model_cases(case))))
+    else:
+        m = mod.from_model(C.model_run(mod.ENGINE_ID, [mod.to_model(case)])[0])
     cmp_obs = mod.canon(o) if hasattr(mod, "canon") else o
     d = C.first_diff(cmp_obs, m)
     br = [x for x in mod.oracle(case, o) if x[0] == pid]
